@@ -3,12 +3,17 @@
 //verif:replace@C01f fmt.Println = c01fPrintln
 //verif:replace@C01f (*os.File).Write = c01fFileWrite
 //verif:replace@C01f (*os.File).WriteString = c01fFileWriteString
+//verif:replace@C04h fmt.Print = c01fPrint
+//verif:replace@C04h fmt.Println = c01fPrintln
+//verif:replace@C04h (*os.File).Write = c01fFileWrite
+//verif:replace@C04h (*os.File).WriteString = c01fFileWriteString
 
 package c01
 
 import (
 	"context"
 	"os"
+	"time"
 
 	chandlers "github.com/mimecast/dtail/internal/clients/handlers"
 	"github.com/mimecast/dtail/internal/config"
@@ -71,4 +76,39 @@ func VerifC01fTerminal(n, P int) {
 	}
 	verifrt.Assert(string(c01fTerminal) == string(content), "what dcat --plain puts on the terminal differs from the file content")
 	verifrt.Reach("terminal-equals-file")
+}
+
+// VerifC04hFollowTerminal: the same in follow mode (`dtail --plain`): n bytes
+// are appended to a followed file (blank and white-space-only lines included);
+// the terminal shows every complete appended line, unmodified and in order,
+// and nothing else.
+func VerifC04hFollowTerminal(n int) {
+	dlog.VerifInstallReal(source.Client, "stdout")
+	config.Client.TermColorsEnable = false
+	config.Server.MaxLineLength = 64
+	c01fTerminal = nil
+	content := []byte(verifrt.StringIn("c", n, "ab% \n\r\t"))
+	path := fs.VerifProvide(content)
+	sh := shandlers.VerifNewServerHandler(true, true, true, 2, 2)
+	ch := chandlers.NewClientHandler("srv")
+	tail := fs.NewTailFile(path, "f", sh.VerifServerMessages())
+	ctx, cancel := context.WithCancel(context.Background())
+	go tail.Start(ctx, lcontext.LContext{}, sh.VerifLines(), regex.NewNoop())
+	verifrt.Sleep(3 * time.Second)
+	p := make([]byte, 64)
+	for len(sh.VerifLines()) > 0 || len(sh.VerifServerMessages()) > 0 || sh.VerifPending() > 0 {
+		k, rerr := sh.Read(p)
+		verifrt.Assert(rerr == nil, "server Read failed")
+		ch.Write(p[:k])
+	}
+	cancel()
+	want := ""
+	for i := len(content); i > 0; i-- {
+		if content[i-1] == '\n' {
+			want = string(content[:i])
+			break
+		}
+	}
+	verifrt.Assert(string(c01fTerminal) == want, "what dtail --plain puts on the terminal differs from the complete lines appended to the file")
+	verifrt.Reach("terminal-equals-appended-lines")
 }
